@@ -16,12 +16,12 @@ RULE = ('random sequences of 1..12 send-family calls (send, sendline, write, wri
         'str arguments) and unicode mode (utf-8, latin-1, utf-16), on the pty (raw-mode reporter child), fd, socket '
         '(in-process peer) and popen (reporter on a pipe) transports; expected byte stream computed by an independent '
         'incremental encoder, one linesep per sendline, control bytes from the documented table / the tty\'s VEOF, VINTR; '
-        'must equal exactly the bytes the peer read; return values = bytes written by that call. non-trivial = sequence '
+        'must equal exactly the bytes the peer read; return values = bytes written by that call. fd transport on a non-blocking descriptor with a peer that does not read: the return value must be the number of bytes the kernel accepted (FIONREAD), the peer finds exactly those prefixes. non-trivial = sequence '
         'with >=2 calls of >=2 kinds or a payload >= 64 KB; distinct by whole case')
 ASSUMPTIONS = ['the pty peer puts its terminal in raw mode so the line discipline cannot alter or echo bytes',
                'control-character table taken from the sendcontrol documentation (a-z, @ [ \\ ] ^ _ ?)']
 REQUIRED = ['sequences', 'calls', 'bytes_compared', 'return_values_checked', 'transport_pty', 'transport_fd',
-            'transport_socket', 'transport_popen', 'control_chars_sent', 'large_payloads']
+            'transport_socket', 'transport_popen', 'control_chars_sent', 'large_payloads', 'short_writes_observed']
 
 CTRL = {'@': 0, '[': 27, '\\': 28, ']': 29, '^': 30, '_': 31, '?': 127}
 for i, ch in enumerate('abcdefghijklmnopqrstuvwxyz'):
@@ -202,6 +202,95 @@ def one(case, acc):
         L.cleanup()
 
 
+def unread(fd):
+    import array
+    import fcntl
+    buf = array.array('i', [0])
+    fcntl.ioctl(fd, termios.FIONREAD, buf)
+    return buf[0]
+
+
+def gen_short_write(rng):
+    enc = rng.choice([None, 'utf-8'])
+    calls = []
+    for _ in range(rng.randint(2, 6)):
+        n = rng.choice([0, 1, 100, 4096, 30000, 60000, 70000, 200000])
+        if enc:
+            s = ''.join(rng.choice('ab\xe9\u20ac') for _ in range(min(n, 64))) * max(1, n // 64) if n else ''
+        else:
+            s = bytes(rng.randrange(256) for _ in range(min(n, 251))) * max(1, n // 251) if n else b''
+        calls.append([rng.choice(['send', 'send', 'sendline']), s])
+    return {'transport': 'fd-nonblocking', 'enc': enc, 'calls': calls, 'drain_after': rng.choice([None, 1, 2])}
+
+
+def short_write_case(case, acc):
+    """fd transport on a non-blocking descriptor whose peer is not reading: the kernel accepts only part of a payload.
+    What send() returns must be the number of bytes that really went into the pipe (FIONREAD on the other end), and
+    the peer must find exactly those prefixes, in order."""
+    import fcntl
+    from pexpect import fdpexpect
+    acc.case()
+    acc.count('sequences')
+    acc.count('transport_fd_nonblocking')
+    enc = case['enc']
+    r, w = os.pipe()
+    try:
+        fcntl.fcntl(w, fcntl.F_SETFL, fcntl.fcntl(w, fcntl.F_GETFL) | os.O_NONBLOCK)
+        c = fdpexpect.fdspawn(w, encoding=enc, timeout=5)
+        ex = Expect(enc)
+        want = b''
+        got = b''
+        for k, call in enumerate(case['calls']):
+            name = call[0]
+            acc.count('calls')
+            part = ex.enc_arg(call[1]) if name == 'send' else ex.line(call[1])
+            before = unread(r)
+            ret = None
+            try:
+                ret = c.send(call[1]) if name == 'send' else c.sendline(call[1])
+            except BlockingIOError:
+                acc.count('would_block_reported')
+            except Exception as e:
+                acc.violation('send-raises:%s:%s' % (name, type(e).__name__), 'fd-nonblocking/%s call #%d %s(%d bytes) raised %r' % (
+                    enc or 'bytes', k, name, len(part), e), case)
+                return
+            wrote = unread(r) - before
+            want += part[:wrote]
+            if wrote < len(part):
+                acc.count('short_writes_observed')
+            acc.count('return_values_checked')
+            if ret is not None and ret != wrote:
+                acc.violation('wrong-return-value:' + name, 'fd-nonblocking/%s call #%d %s(%d bytes) returned %r, the pipe took %d bytes' % (
+                    enc or 'bytes', k, name, len(part), ret, wrote), case)
+                return
+            if ret is None and wrote:
+                acc.violation('wrote-and-raised:' + name, 'call #%d raised BlockingIOError after %d bytes had been written' % (k, wrote), case)
+                return
+            if case.get('drain_after') == k:
+                n = unread(r)
+                while n > 0:
+                    d = os.read(r, n)
+                    got += d
+                    n -= len(d)
+        n = unread(r)
+        while n > 0:
+            d = os.read(r, n)
+            got += d
+            n -= len(d)
+        acc.count('bytes_compared', len(want))
+        if got != want:
+            acc.violation('peer-received-different-bytes:fd-nonblocking', 'peer found %d bytes, expected %d (prefixes accepted by the kernel)' % (
+                len(got), len(want)), case)
+            return
+        acc.nontrivial('c08', ['fd-nonblocking', enc, [(c0[0], len(c0[1])) for c0 in case['calls']], case.get('drain_after')])
+    finally:
+        os.close(r)
+        try:
+            os.close(w)
+        except OSError:
+            pass
+
+
 def short(x, n=80):
     r = repr(x)
     return r if len(r) <= n else r[:n] + '...'
@@ -215,6 +304,8 @@ def plan(tier, seed):
 def run_shard(spec, acc):
     if 'replay' in spec:
         try:
+            if spec['replay'].get('transport') == 'fd-nonblocking':
+                return short_write_case(spec['replay'], acc)
             return one(spec['replay'], acc)
         except PeerError as e:
             acc.inconc('peer: %s' % e)
@@ -225,6 +316,8 @@ def run_shard(spec, acc):
         case = gen_case(rng, tr, big_ok=(i % 3 == 0))
         try:
             with watchdog(60):
+                if i % 8 == 5:
+                    short_write_case(gen_short_write(rng), acc)
                 one(case, acc)
         except PeerError as e:
             acc.inconc('peer: %s' % e)
